@@ -18,7 +18,7 @@
     - Keccak-256 is a parameter [H].
     - A Go [panic(...)] written in the code is the result [RPanic]; a Go run-time fault (index or
       slice bound out of range) is [RFault]. In both cases the method had not yet assigned any
-      field when it stopped (shown for RFault by [revert_fault_only_negative] in Proofs), so the
+      field when it stopped (shown for RFault by [fault_only_out_of_range] in Proofs), so the
       state is unchanged.
     - [logs[:n]] with n > len(logs) would, in Go, re-expose stale elements of the backing array
       (or fault when n > cap). The model answers [RFault] there; Proofs/StateDB.v shows that no
@@ -339,7 +339,7 @@ Section WithEnv.
 
   (** Go [l[i]]: run-time fault unless 0 <= i < len. *)
   Definition go_index {A} (l : list A) (i : Z) : option A :=
-    if (i <? 0)%Z then None else nth_error l (Z.to_nat i).
+    if (i <? 0)%Z || (Z.of_nat (length l) <=? i)%Z then None else nth_error l (Z.to_nat i).
   (** Go [l[:n]] restricted to n <= len (see the header on n > len). *)
   Definition go_prefix {A} (l : list A) (n : Z) : option (list A) :=
     if (n <? 0)%Z || (Z.of_nat (length l) <? n)%Z then None else Some (firstn (Z.to_nat n) l).
